@@ -172,6 +172,10 @@ pub fn gen_cfg_for(prop: &str, rng: &mut Rng, thorough: bool) -> GenCfg {
             cfg.p_reloads = 0.4;
             cfg.p_breaks = 0.4;
             cfg.min_jobs = 8;
+            // conservation is also judged under the features O1 replays only partially (times are not compared there)
+            cfg.p_clustering = 0.15;
+            cfg.p_recharge = 0.15;
+            cfg.p_required_breaks = 0.15;
         }
         "C03" => {
             // reproducibility: several activities per stop, waiting, scale, reload legs, open ends, multi-place tasks
